@@ -289,3 +289,36 @@ def refresh_transitions(ctx, rid):
     run.instance(rid, {"fn": "apply_api_outputs", "obligation": "reported by the node => mark_unspent; absent => mark_spent or mark_reverted; then saved"}, held=held)
     if not held:
         run.finding(Finding(rid, ap.id, "refresh does not move outputs to Unspent / Spent according to the node's answer", site=ap.loc()))
+
+
+def refresh_not_skipped(ctx, rid):
+    """apply_api_outputs gives up (without writing) exactly when the node is *behind* the wallet
+    (height < last_confirmed_height): not when it is merely level - a refresh at an unchanged tip must still
+    apply what the node reports (e.g. a reorganisation at equal height) - and never when it is ahead."""
+    run = ctx.run
+    ap = ctx.fn(c.LW + "internal::updater::apply_api_outputs")
+    if not ap:
+        return
+    fl = vf.get_flow(ap)
+    hc = [x for x in cfg.comparisons(ap) if x.op in ("Lt", "Ge", "Gt", "Le") and vf.has_call(vf.producers(ap, x.l) | vf.producers(ap, x.r), c.WB + "last_confirmed_height")]
+    held = len(hc) == 1
+    why = "comparison with last_confirmed_height not found"
+    if held:
+        x = hc[0]
+        op = x.normalized(lambda o: any(a[0] == "arg" for a in o) and not vf.has_call(o, c.WB + "last_confirmed_height"), lambda o: vf.has_call(o, c.WB + "last_confirmed_height"), fl)
+        plain = all(not any(y[0] == "binop" for y in vf.producers(ap, side)) for side in (x.l, x.r))
+        if not plain:
+            op = None
+        behind = x.true_edges if op == "Lt" else (x.false_edges if op == "Ge" else None)
+        held = behind is not None
+        why = "the early return is taken for `height %s last_confirmed_height` (expected <)" % op
+        if held:
+            starts = [d for (_s, d) in behind]
+            par = cfg.reach(ap, starts=starts)
+            eb = ctx.eff.effect_blocks(ap)
+            bt = {b for b, _t in cfg.find_calls(ap, c.WB + "batch")}
+            held = not any(b in par for b in eb) and not any(b in par for b in bt)
+            why = "effects are reachable on the node-is-behind edge"
+    run.instance(rid, {"fn": "apply_api_outputs", "obligation": "height < last_confirmed_height (strictly) => return without opening a batch; otherwise the node's answer is applied"}, held=held)
+    if not held:
+        run.finding(Finding(rid, ap.id, "refresh writes although the node height is below the wallet's confirmed height", site=ap.loc(), detail=why))
